@@ -18,7 +18,8 @@ DEPTH = int(os.environ.get("VERIF_C08_DEPTH", "2"))
 BATCH = [int(i) for i in os.environ.get("VERIF_C08_BATCH", "0").split(",")]
 WHICH = int(os.environ.get("VERIF_C08_WHICH", "0"))
 KNOWN_WHY = os.environ.get("VERIF_C08_WHY")
-L = 8
+L = 10
+LT = 8       # decisions per path for the two-path (type) conditions
 
 ALL = e8.corpus(N, SEED, DEPTH)
 SRCS = [ALL[i] for i in BATCH if i < len(ALL)]
@@ -61,7 +62,7 @@ def _pick(which):
     return k
 
 
-def h_sound_defined(which: int, c0: bool, c1: bool, c2: bool, c3: bool, c4: bool, c5: bool, c6: bool, c7: bool) -> bool:
+def h_sound_defined(which: int, c0: bool, c1: bool, c2: bool, c3: bool, c4: bool, c5: bool, c6: bool, c7: bool, c8: bool, c9: bool) -> bool:
     """
     pre: 0 <= which < NB
     post: _
@@ -70,15 +71,15 @@ def h_sound_defined(which: int, c0: bool, c1: bool, c2: bool, c3: bool, c4: bool
     k = _pick(which)
     if VERDICT[k][0] != "accepted":
         return True
-    r = e8.run_defined(FNS[k], [c0, c1, c2, c3, c4, c5, c6, c7])
+    r = e8.run_defined(FNS[k], [c0, c1, c2, c3, c4, c5, c6, c7, c8, c9])
     if r.startswith("undefined"):
-        LAST_DETAIL = f"ACCEPTED by the real checker, but on decisions {[c0, c1, c2, c3, c4, c5, c6, c7]} a read is reached unassigned ({r}):\n{SRCS[k]}"
+        LAST_DETAIL = f"ACCEPTED by the real checker, but on decisions {[c0, c1, c2, c3, c4, c5, c6, c7, c8, c9]} a read is reached unassigned ({r}):\n{SRCS[k]}"
         return False
     return True
 
 
-def h_sound_types(which: int, c0: bool, c1: bool, c2: bool, c3: bool, c4: bool, c5: bool,
-                  d0: bool, d1: bool, d2: bool, d3: bool, d4: bool, d5: bool) -> bool:
+def h_sound_types(which: int, c0: bool, c1: bool, c2: bool, c3: bool, c4: bool, c5: bool, c6: bool, c7: bool,
+                  d0: bool, d1: bool, d2: bool, d3: bool, d4: bool, d5: bool, d6: bool, d7: bool) -> bool:
     """
     pre: 0 <= which < NB
     post: _
@@ -87,54 +88,66 @@ def h_sound_types(which: int, c0: bool, c1: bool, c2: bool, c3: bool, c4: bool, 
     k = _pick(which)
     if VERDICT[k][0] != "accepted":
         return True
-    r = e8.run_types(FNS[k], [c0, c1, c2, c3, c4, c5], [d0, d1, d2, d3, d4, d5])
+    r = e8.run_types(FNS[k], [c0, c1, c2, c3, c4, c5, c6, c7], [d0, d1, d2, d3, d4, d5, d6, d7])
     if r.startswith("conflict"):
-        LAST_DETAIL = f"ACCEPTED by the real checker, but {r} (decisions {[c0, c1, c2, c3, c4, c5]} / {[d0, d1, d2, d3, d4, d5]}):\n{SRCS[k]}"
+        LAST_DETAIL = f"ACCEPTED by the real checker, but {r} (decisions {[c0, c1, c2, c3, c4, c5, c6, c7]} / {[d0, d1, d2, d3, d4, d5, d6, d7]}):\n{SRCS[k]}"
         return False
     return True
 
 
-def h_never_undefined(c0: bool, c1: bool, c2: bool, c3: bool, c4: bool, c5: bool, c6: bool, c7: bool) -> bool:
+def h_never_undefined(c0: bool, c1: bool, c2: bool, c3: bool, c4: bool, c5: bool, c6: bool, c7: bool, c8: bool, c9: bool) -> bool:
     """
     post: _
     """
     # for one program (VERIF_C08_WHICH) rejected as 'not defined': expected to be refuted by a path to an unassigned read
     global LAST_DETAIL
-    r = e8.run_defined(FNS[WHICH], [c0, c1, c2, c3, c4, c5, c6, c7])
+    r = e8.run_defined(FNS[WHICH], [c0, c1, c2, c3, c4, c5, c6, c7, c8, c9])
     if r.startswith("undefined"):
         LAST_DETAIL = f"witness path for {VERDICT[WHICH][1]}: {r}"
         return False
     return True
 
 
-def h_never_conflict(c0: bool, c1: bool, c2: bool, c3: bool, c4: bool, c5: bool,
-                     d0: bool, d1: bool, d2: bool, d3: bool, d4: bool, d5: bool) -> bool:
+def h_never_conflict(c0: bool, c1: bool, c2: bool, c3: bool, c4: bool, c5: bool, c6: bool, c7: bool,
+                     d0: bool, d1: bool, d2: bool, d3: bool, d4: bool, d5: bool, d6: bool, d7: bool) -> bool:
     """
     post: _
     """
     global LAST_DETAIL
-    r = e8.run_types(FNS[WHICH], [c0, c1, c2, c3, c4, c5], [d0, d1, d2, d3, d4, d5])
+    r = e8.run_types(FNS[WHICH], [c0, c1, c2, c3, c4, c5, c6, c7], [d0, d1, d2, d3, d4, d5, d6, d7])
     if r.startswith("conflict"):
         LAST_DETAIL = f"witness for {VERDICT[WHICH][1]}: {r}"
         return False
     return True
 
 
-def h_defined_exhaustive() -> bool:
+def h_defined_exhaustive():
+    """True: a witness exists; False: none exists and no path was cut off by the bound (a definite disagreement);
+    'inconclusive': none within the bound, but some path needs more decisions than the bound allows"""
     global LAST_DETAIL
+    cut = False
     for cs in itertools.product([False, True], repeat=L):
-        if e8.run_defined(FNS[WHICH], list(cs)).startswith("undefined"):
+        r = e8.run_defined(FNS[WHICH], list(cs))
+        if r.startswith("undefined"):
             return True
+        cut = cut or r == "out-of-choices"
+    if cut:
+        LAST_DETAIL = f"no witness with {L} decisions, longer paths exist"
+        return "inconclusive"
     LAST_DETAIL = f"REJECTED by the real checker with {VERDICT[WHICH][1]}, but no decision vector of length {L} reaches an unassigned read:\n{SRCS[WHICH]}"
     return False
 
 
-def h_conflict_exhaustive() -> bool:
+def h_conflict_exhaustive():
     global LAST_DETAIL
-    vs = list(itertools.product([False, True], repeat=6))
+    vs = list(itertools.product([False, True], repeat=LT))
+    cut = any(e8.run_defined(FNS[WHICH], list(c)) == "out-of-choices" for c in vs)
     for c in vs:
         for d in vs:
             if e8.run_types(FNS[WHICH], list(c), list(d)).startswith("conflict"):
                 return True
-    LAST_DETAIL = f"REJECTED by the real checker with {VERDICT[WHICH][1]}, but no pair of decision vectors of length 6 gives one read site two types:\n{SRCS[WHICH]}"
+    if cut:
+        LAST_DETAIL = f"no witness with {LT} decisions per path, longer paths exist"
+        return "inconclusive"
+    LAST_DETAIL = f"REJECTED by the real checker with {VERDICT[WHICH][1]}, but no pair of decision vectors gives one read site two types:\n{SRCS[WHICH]}"
     return False
